@@ -116,7 +116,8 @@ def doc_sequences(tier):
                           [(k,) for k in K + K_EXTRA])
         seqs = [(s,) for s in wide]
         winner = [s for s in wide if nchildren(s)]
-        seqs += [(a, b) for a in winner for b in wide]
+        seqs += [(a, b) for a in winner for b in base]
+        seqs += [(a, b) for a in inner for b in wide if b not in BASE_SHAPES]
         seqs += [(a, b, c) for a in inner for b in inner for c in base]
         seqs += [(a, b, c, e) for a in SEL for b in SEL for c in SEL for e in base]
     return seqs
@@ -567,7 +568,8 @@ def plan(ctx):
                  "construction (distinct sequence, node, token, spelling string); non-trivial = the fragment has at "
                  "least one token" % (
                      4 if ctx.thorough else 3,
-                     "all pairs of K and the extended alphabet at depth <= 2" if ctx.thorough else "quick tier")),
+                     "thorough: additionally every pair of keys of K and the extended alphabet as a key set, at either "
+                     "level of the documents of depth <= 2" if ctx.thorough else "quick tier")),
         "bounds": dict(by_depth, documents=len(seqs), keys=len(tier_keys(ctx.tier)),
                        key_sets=len(KEYSETS) if not ctx.thorough else len(KEYSETS) + len(KEYSETS_EXTRA) + 253 - 9,
                        array_tokens=len(ARRAY_TOKENS) + 2, string_tokens=len(STRING_TOKENS),
